@@ -48,6 +48,7 @@ func ResolveRelativePaths(project map[string]any, base string, remotes []RemoteR
 		"include.env_file":                       r.absPath,
 		"volumes.*":                              r.volumeDriverOpts,
 	}
+	verifTable(r.resolvers)
 	_, err := r.resolveRelativePaths(project, tree.NewPath())
 	return err
 }
